@@ -29,7 +29,7 @@ RULE = ('A history is a sequence over {save_spike_clusters(random merge/split/re
         'to the real TemplateModel of a generated dataset (KS or ALF file names, int16/float32 raw data); a '
         'dictionary reference model of the directory is stepped alongside and compared with the freshly loaded '
         'model after EVERY reload (assignments, every saved field, foreign metadata, templates, times, store '
-        'waveforms vs raw windows). quick: all histories of length <= 2 over a 9-operation alphabet + seeded '
+        'waveforms vs raw windows). scripted families save / reload / save other / save again the load-time value / reload for every field and for the assignments; quick: all histories of length <= 2 over a 9-operation alphabet + seeded '
         'random histories of length <= 8; thorough: length <= 3 + more random. non-trivial = distinct '
         'histories with >= 2 saves of the same kind or a malformed file before a reload.')
 EXHAUSTIVE = {'quick': True, 'thorough': True}
@@ -42,7 +42,7 @@ ASSUMPTIONS = ['foreign files never reuse a saved field name (glob order would d
                'no operation other than reload is applied to a closed model']
 NSHARDS = 16
 FIELDS = ['group', 'quality', 'my note']
-STRS = ['good', 'mua', 'needs review', 'a,b', 'tab\there', 'say "hi"', "it's", 'é']
+STRS = ['good', 'mua', 'needs review', 'a,b', 'tab\there', 'say "hi"', "it's", 'é', ' lead', 'trail ', ' both ']
 REDUCED = [('clusters', 1), ('clusters', 2), ('meta', 'group', 1), ('meta', 'group', 2), ('meta', 'quality', 3),
            ('foreign', 'valid_tsv'), ('foreign', 'garbage'), ('subset', 3, 2, 1.0), ('close',)]
 
@@ -61,6 +61,18 @@ def run_shard(desc, ctx):
                 run_case({'seed': [desc['seed'], 10, idx], 'ops': [list(REDUCED[i]) for i in seq], 'enum': True}, ctx)
     for i in range(desc['nrand']):
         run_case({'seed': [desc['seed'], desc['shard'], i], 'ops': None, 'enum': False}, ctx)
+    # scripted families: save, reload, save something else, save again what was on disk at load time, reload
+    fam = []
+    for f in FIELDS:
+        fam.append([['meta', f, 11], ['reload'], ['meta', f, 12], ['meta_back', f]])
+        fam.append([['meta', f, 13], ['reload'], ['meta', f, 14], ['clusters', 3], ['meta_back', f], ['close']])
+    fam.append([['clusters', 5], ['reload'], ['clusters', 6], ['clusters_back']])
+    fam.append([['clusters', 7], ['meta', 'group', 15], ['reload'], ['clusters', 8], ['meta', 'group', 16], ['clusters_back'], ['meta_back', 'group']])
+    for j, ops in enumerate(fam):
+        for rep in range(2):
+            idx += 1
+            if idx % desc['n'] == desc['shard']:
+                run_case({'seed': [desc['seed'], 1010, j, rep], 'ops': ops, 'enum': True}, ctx)
 
 
 def rand_mapping(rng, ids):
@@ -142,6 +154,7 @@ def _run(case, ctx, d):
         return
     m = r.value
     closed = False
+    at_load = {'fields': {}, 'clusters': ref['clusters'].copy()}
     monitors.CURRENT.readers.register(m.traces, lambda A=A: A, label='model.traces')
     try:
         for i, op in enumerate(ops):
@@ -165,6 +178,22 @@ def _run(case, ctx, d):
                                   dict(f0, exc=rr.exc_name, op=k), tb=rr.tb)
                     return
                 ref['fields'][op[1]] = {c: v for c, v in mapping.items() if v is not None}
+            elif k == 'meta_back':
+                mapping = at_load['fields'].get(op[1])
+                if mapping is None:
+                    continue
+                rr = call(m.save_metadata, op[1], dict(mapping))
+                if not rr.ok:
+                    ctx.violation('save_raised', desc, 'save_metadata raised %r' % rr.exc, dict(f0, exc=rr.exc_name, op=k), tb=rr.tb)
+                    return
+                ref['fields'][op[1]] = dict(mapping)
+            elif k == 'clusters_back':
+                new = at_load['clusters'].astype(np.int32)
+                rr = call(m.save_spike_clusters, new)
+                if not rr.ok:
+                    ctx.violation('save_raised', desc, 'save_spike_clusters raised %r' % rr.exc, dict(f0, exc=rr.exc_name, op=k), tb=rr.tb)
+                    return
+                ref['clusters'] = new.astype(np.int64)
             elif k == 'foreign':
                 fn, text, exp = FOREIGN[op[1]]
                 with open(os.path.join(d, fn), 'wb') as f:
@@ -193,6 +222,7 @@ def _run(case, ctx, d):
                     return
                 m = rr.value
                 closed = False
+                at_load = {'fields': {k_: dict(v_) for k_, v_ in ref['fields'].items()}, 'clusters': ref['clusters'].copy()}
                 monitors.CURRENT.readers.register(m.traces, lambda A=A: A, label='model.traces')
                 ctx.mon('reloads_compared')
                 if _compare(ctx, desc, f0, spec, ref, m, A, ops[:i]):
